@@ -364,6 +364,7 @@ def analyzer_histories(ctx: Ctx, rng) -> None:
 #   ["set", name, attr, value]        attr: circuit | input | backend | source | detector | post_select | pnr
 #   ["mutate", ref, value]            in place on the shared component (Backend.backend, Source / Detector attributes)
 #   ["mutate_own", name, what, value] the same through one holder: sampler.source.brightness = ... etc.
+#   ["mutate_ps", rules, extra]       a further rule added IN PLACE to the shared PostSelection object made from `rules`
 #   ["param", v]  ["mutate_circuit", circuit, what, mode]     the shared Parameter / circuit objects
 #   ["obs", name, what, ...]          read | sample seed | sample_N_outputs N seed rules | sample_N_inputs N seed rules
 #                                     | analyze inputs with_expected
@@ -402,6 +403,7 @@ def run_shared(ctx: Ctx, steps: list) -> list[str]:
     comp = {"B0": emulator.Backend(vals["B0"]), "B1": emulator.Backend(vals["B1"]), "SRC0": _mk_source(vals["SRC0"]),
             "SRC1": _mk_source(vals["SRC1"]), "D0": _mk_detector(vals["D0"]), "D1": _mk_detector(vals["D1"])}
     psobjs: dict = {}
+    psrules: dict = {}
     objs: dict = {}
     gates: dict = {}
 
@@ -409,7 +411,17 @@ def run_shared(ctx: Ctx, steps: list) -> list[str]:
         key = json.dumps(r)
         if key not in psobjs:
             psobjs[key] = mk_ps(r)
+            psrules[key] = [r]
         return psobjs[key]
+
+    def fresh_ps(r):
+        """a new PostSelection object holding the rules that the shared one made from `r` holds now"""
+        if r is None:
+            return None
+        ps = lw.PostSelection()
+        for x in psrules.get(json.dumps(r), [r]):
+            ps.add(tuple(x[0]), tuple(x[1]))
+        return ps
 
     def pad(base, c):
         return (list(base) + [0] * 8)[: c.input_modes]
@@ -429,10 +441,10 @@ def run_shared(ctx: Ctx, steps: list) -> list[str]:
             return emulator.Sampler(c, lw.State(cur["input"]), source=_mk_source(eff(o, "s")),
                                     detector=_mk_detector(eff(o, "d")), backend=eff(o, "b"))
         if o["kind"] == "quick":
-            return emulator.QuickSampler(c, lw.State(cur["input"]), photon_counting=cur["pnr"], post_select=mk_ps(cur["ps"]))
+            return emulator.QuickSampler(c, lw.State(cur["input"]), photon_counting=cur["pnr"], post_select=fresh_ps(cur["ps"]))
         a = emulator.Analyzer(c)
         if cur["ps"] is not None:
-            a.post_selection = mk_ps(cur["ps"])
+            a.post_selection = fresh_ps(cur["ps"])
         return a
 
     for k, st in enumerate(steps):
@@ -460,6 +472,15 @@ def run_shared(ctx: Ctx, steps: list) -> list[str]:
                 continue
             if op == "param":
                 p.set(st[1])
+                continue
+            if op == "mutate_ps":
+                if st[1] is not None and st[2] is not None and st[2] not in psrules.get(json.dumps(st[1]), [st[1]]):
+                    try:
+                        ps_for(st[1]).add(tuple(st[2][0]), tuple(st[2][1]))
+                    except ValueError:  # (a mode may carry one rule only: the object refuses and stays as it is)
+                        ctx.count("shared:mutate_ps_refused")
+                    else:
+                        psrules[json.dumps(st[1])].append(st[2])
                 continue
             if op == "mutate_circuit":
                 c = fam[st[1]]
@@ -586,7 +607,7 @@ def run_shared(ctx: Ctx, steps: list) -> list[str]:
                     def many(x, shared_ps, what=what, n=n, seed=seed, rules=rules):
                         kw = {}
                         if kind == "sampler" and rules is not None:
-                            kw["post_select"] = ps_for(rules) if shared_ps else mk_ps(rules)
+                            kw["post_select"] = ps_for(rules) if shared_ps else fresh_ps(rules)
                         f = x.sample_N_outputs if what == "sample_N_outputs" else x.sample_N_inputs
                         return sorted((tuple(t.s), m) for t, m in f(n, seed=seed, **kw).items())
                     a, fo = observe(lambda: many(obj, True)), observe(lambda: many(fresh(o), False))
@@ -646,6 +667,13 @@ def _shared_corpus() -> list:
                     ["obs", "S1", "sample_N_outputs", 20, 7, r], ["set", "A1", "circuit", second], ["set", "Q1", "circuit", second],
                     ["set", "S1", "circuit", second], ["obs", "A1", "analyze", [[1, 1, 0]], True], ["obs", "Q1", "sample", 5], rd("Q1"),
                     ["obs", "S1", "sample_N_outputs", 20, 7, r], rd("S1")])
+    # a rule added in place to the PostSelection object that a QuickSampler, an Analyzer and a Sampler's calls share
+    for extra in ([[1], [0, 1]], [[2], [0]]):
+        out.append([["new", "Q1", "quick", "plain", [1, 1, 0], {"pnr": True, "ps": r}], ["new", "A1", "analyzer", "plain", [1, 1, 0], {"ps": r}],
+                    ["new", "S1", "sampler", "plain", [1, 1, 0], smp("B0")], ["obs", "Q1", "sample", 3], ["obs", "A1", "analyze", [[1, 1, 0]], False],
+                    ["obs", "S1", "sample_N_outputs", 20, 7, r], ["mutate_ps", r, extra], ["obs", "Q1", "sample", 3], rd("Q1"),
+                    ["obs", "A1", "analyze", [[1, 1, 0]], True], ["obs", "S1", "sample_N_outputs", 20, 7, r],
+                    ["obs", "S1", "sample_N_inputs", 20, 7, r], ["obs", "Q1", "sample_N_outputs", 20, 1, None]])
     for cname in ("plain", "lossy", "herald_out0"):
         out.append([["new", "S1", "sampler", cname, [1, 0, 1], smp("B1")], ["new", "Q1", "quick", cname, [1, 0, 1], {"pnr": True, "ps": None}],
                     ["new", "A1", "analyzer", cname, [1, 0, 1], {"ps": None}], rd("S1"), ["obs", "Q1", "sample", 2],
@@ -734,6 +762,8 @@ def gen_shared(ctx: Ctx, rng) -> list:
             steps.append(["param", rng.choice([0.1, 0.5, 0.9])])
         elif r < 0.86:
             steps.append(["mutate_circuit", rng.choice(group), rng.choice(["bs", "ps", "gate"]), rng.randrange(2)])
+        elif r < 0.93:
+            steps.append(["mutate_ps", rng.choice(SH_RULES[1:]), rng.choice(SH_RULES[1:])])
         # after every step: look at one or two holders, not necessarily the one that was touched
         for n in rng.sample(list(objs), min(len(objs), rng.randint(1, 2))):
             obs(n)
